@@ -6,6 +6,10 @@ props = [json.loads(l) for l in open(os.path.join(V, "properties.jsonl"))]
 
 EVAL_NOTE = "trusted: TLC; the renderer's canonical layout and path->line map; H2 hook events (emitted after each VM state change in the single evaluator goroutine); program families are bounded (sizes in the evidence)"
 CHECKS = {
+ "C11": dict(
+   technique="TLA+ fold spec with nondeterministic iteration order (ZnMapIter: confluence of every range-over-map loop kind, deviations refuted) and ZnDictEq (contents-only equality vectors) model-checked by TLC; static go/types inventory of range-over-map sites bound to the spec's site table; N-fold repeated execution of TLC-generated programs",
+   level="TLC explores all iteration orders of each modelled loop kind over all maps of <=3 entries and checks the result equals the canonical order's; the two non-confluent loop shapes found in the original code are kept as named deviations and must be refuted in every run. A go/types pass lists every range over a map in pkg/ and stdlib/ with a hash of the loop text: it must equal the spec's site table (otherwise exit 2, unmodelled). All 6241 ordered pairs of small dictionaries in all insertion orders are compared with 为/不为/==//=/包含/寻找 (plain and nested) 32 (thorough 256) times each: every repetition must give the contents-only answer; further order-sensitive-looking programs (JSON parse order, object defaults, error messages) are repeated 128-1024 times and must be one behaviour.",
+   note="trusted: TLC; Go's per-range random iteration start as the source of schedule variety; manual classification of each loop site (re-forced by the hash when the loop text changes)", ref="5 C11"),
  "C19": dict(
    technique="TLA+ structural codec spec (ZnJson: ToJson/FromJson with ordered members, round-trip and order invariants) model-checked by TLC; TLC-enumerated values replayed through 生成JSON/解析JSON with Python's json module as the independent reader/writer",
    level="TLC enumerates 17014 top-level dictionaries (<=2 ordered members over 3 key atoms, values = 17 atoms incl. quote/backslash/control/astral/U+2028 texts and boundary doubles, or containers of <=1 atom) plus ~5000 seeded random depth-3 values, checking FromJson(ToJson(v)) = v and key order on the spec. For each value: the generated text must be read back by Python's strict json (order-preserving) as the same structure; Python-encoded documents in 4 styles must parse to the value with keys in document order; the composition must give the value (compared structurally and by 为); single-character corruptions (quick ~4000) and non-finite numbers must raise an exception that a 拦截异常 handler catches.",
